@@ -1053,6 +1053,20 @@ pub fn c11_check_float(t: &Triple, counts: &mut std::collections::BTreeMap<Strin
     Ok(())
 }
 
+thread_local! {
+    static PAIRING_ROTOR: std::cell::Cell<usize> = const { std::cell::Cell::new(0) };
+}
+
+/// chained calls go through whichever of the four trait implementations the operand shapes allow, in rotation
+fn run_chain(a: &MP, b: &MP, op: Op) -> Result<MP, Fail> {
+    let applicable: Vec<Pairing> = PAIRINGS.iter().cloned().filter(|p| p.applicable(a, b)).collect();
+    let k = PAIRING_ROTOR.with(|r| {
+        r.set(r.get() + 1);
+        r.get()
+    });
+    run_any(a, b, op, false, applicable[k % applicable.len()]).map_err(fail_of)
+}
+
 pub fn c11_check(t: &Triple, counts: &mut std::collections::BTreeMap<String, u64>) -> Result<(), Fail> {
     if !t.case.exact {
         return c11_check_float(t, counts);
@@ -1066,10 +1080,10 @@ pub fn c11_check(t: &Triple, counts: &mut std::collections::BTreeMap<String, u64
         check_provenance(&t.case, &r1, 0.0, !bboxes_disjoint(a, b), &mut ProvStats::default()).map_err(|m| ("chain:intermediate-provenance".to_string(), format!("{}: {}", op1.name(), m)))?;
         for op2 in OPS {
             let variants: [(&str, MP, Box<dyn Fn(bool, bool, bool) -> bool>); 4] = [
-                ("(A op B) op' C", run(&r1, c, op2, false)?, Box::new(move |x, y, z| op2.apply(op1.apply(x, y), z))),
-                ("C op' (A op B)", run(c, &r1, op2, false)?, Box::new(move |x, y, z| op2.apply(z, op1.apply(x, y)))),
-                ("(A op B) op' B", run(&r1, b, op2, false)?, Box::new(move |x, y, _| op2.apply(op1.apply(x, y), y))),
-                ("A op' (A op B)", run(a, &r1, op2, false)?, Box::new(move |x, y, _| op2.apply(x, op1.apply(x, y)))),
+                ("(A op B) op' C", run_chain(&r1, c, op2)?, Box::new(move |x, y, z| op2.apply(op1.apply(x, y), z))),
+                ("C op' (A op B)", run_chain(c, &r1, op2)?, Box::new(move |x, y, z| op2.apply(z, op1.apply(x, y)))),
+                ("(A op B) op' B", run_chain(&r1, b, op2)?, Box::new(move |x, y, _| op2.apply(op1.apply(x, y), y))),
+                ("A op' (A op B)", run_chain(a, &r1, op2)?, Box::new(move |x, y, _| op2.apply(x, op1.apply(x, y)))),
             ];
             for (name, r2, f) in variants.iter() {
                 *counts.entry(format!("chains:{}", name)).or_insert(0) += 1;
